@@ -52,11 +52,15 @@ def _chunk_worker(args):
                     s["rechecked"] += 1
                     k1 = out["violation"]["kind"] if out["violation"] else None
                     k2 = out2["violation"]["kind"] if out2["violation"] else None
-                    # strict for clean runs; when BOTH executions violate with the same kind the differing trace is the
-                    # code under test drawing from a source the simulator cannot own (OS entropy) - still a violation
-                    if k1 != k2 or (k1 is None and out2["digest"] != out["digest"]):
+                    # strict for clean runs: two clean executions of one scenario must have identical traces (anything else is a
+                    # nondeterministic harness). When an execution VIOLATES and the other one differs (other kind, other trace, or
+                    # no violation at all), the code under test draws from a source no simulator can own - OS entropy, object
+                    # addresses - and the violation that was observed stands.
+                    if k1 is None and k2 is None and out2["digest"] != out["digest"]:
                         raise HarnessError(f"nondeterministic: run {i} digests {out['digest']} vs {out2['digest']} "
-                                           f"(violation kinds {k1} / {k2})")
+                                           f"(no violation in either execution)")
+                    if k1 is None and k2 is not None:
+                        out = out2
             except RunTimeout:
                 s["harness_errors"].append([i, f"run exceeded {RUN_TIMEOUT}s wall clock"])
                 continue
